@@ -391,7 +391,7 @@ func TestC05EndToEnd(t *testing.T) {
 
 type relayEvent struct {
 	AtMs int    `json:"at_ms"`
-	Kind string `json:"kind"` // fail_send | fail_recv | down | up
+	Kind string `json:"kind"` // fail_send | fail_recv | down | up | blackhole | deliver
 	Dir  string `json:"dir"`  // c2s | s2c (stream)
 	N    int    `json:"n,omitempty"`
 }
@@ -403,6 +403,10 @@ type c05rtCase struct {
 	S2C    []int        `json:"s2c"`
 	GapMs  int          `json:"gap_ms"` // pause between writes so that faults hit a live transfer
 	Events []relayEvent `json:"events"`
+	// Redial: the transfer runs on the second connection of the session
+	// (both mailbox conns closed and refreshed, as Client.Dial and
+	// Server.Accept do for every connection but the first).
+	Redial bool `json:"redial,omitempty"`
 }
 
 // runC05RT is the real-time sibling of runC05: the relay breaks streams
@@ -425,6 +429,45 @@ func runC05RT(c *c05rtCase) (out c05Outcome) {
 			mp.CloseWithin(30 * time.Second)
 		}
 	}()
+	if c.Redial {
+		// (Close only: the refreshed server connection lives on the
+		// context of the first one, as it does under Server.Accept)
+		if hung := closeWithin(30*time.Second, []string{"client", "server"}, mp.C.Close, mp.S.Close); len(hung) > 0 {
+			out.violation = "Close of the first (idle) connection did not return within 30s: " + strings.Join(hung, ", ")
+			return
+		}
+		rctx, rcancel := context.WithCancel(context.Background())
+		var (
+			rwg        sync.WaitGroup
+			c2         *mailbox.ClientConn
+			s2         *mailbox.ServerConn
+			cerr, serr error
+		)
+		rwg.Add(2)
+		go func() { defer rwg.Done(); c2, cerr = mailbox.RefreshClientConn(rctx, mp.C) }()
+		go func() { defer rwg.Done(); s2, serr = mailbox.RefreshServerConn(mp.S) }()
+		rdone := make(chan struct{})
+		go func() { rwg.Wait(); close(rdone) }()
+		select {
+		case <-rdone:
+		case <-time.After(60 * time.Second):
+			// setting up the second connection is C11's subject; without
+			// it there is nothing to transfer over
+			rcancel()
+			mp.cancel()
+			closedPair = true
+			out.labels = append(out.labels, "second_connection_not_established")
+			return
+		}
+		if cerr != nil || serr != nil {
+			rcancel()
+			out.violation = fmt.Sprintf("refreshing the connections on a fault-free relay failed: client %v, server %v", cerr, serr)
+			return
+		}
+		oldCancel := mp.cancel
+		mp.C, mp.S, mp.cancel = c2, s2, func() { rcancel(); oldCancel() }
+		out.labels = append(out.labels, "second_connection_of_the_session")
+	}
 	cli, srv := ecdhKey(c.Seed, "cli"), ecdhKey(c.Seed, "srv")
 	pass := entropy(c.Seed, "pass", 14)
 	auth := entropy(c.Seed, "auth", 64)
@@ -443,8 +486,26 @@ func runC05RT(c *c05rtCase) (out c05Outcome) {
 	hwg.Add(2)
 	go func() { defer hwg.Done(); cc, _, cerr = nc.ClientHandshake(context.Background(), "", mp.C) }()
 	go func() { defer hwg.Done(); sc, _, serr = ns.ServerHandshake(mp.S) }()
-	hwg.Wait()
+	hdone := make(chan struct{})
+	go func() { hwg.Wait(); close(hdone) }()
+	select {
+	case <-hdone:
+	case <-time.After(120 * time.Second):
+		if c.Redial {
+			out.labels = append(out.labels, "second_connection_not_established")
+		} else {
+			out.violation = "Noise handshake did not finish within 120s on a fault-free relay"
+		}
+		return
+	}
 	if cerr != nil || serr != nil {
+		if c.Redial {
+			// a second connection can be killed by what the first one left
+			// in the mailboxes (C10 / C11); the dialer then simply dials
+			// again, which is not this property's subject
+			out.labels = append(out.labels, "second_connection_not_established")
+			return
+		}
 		out.violation = fmt.Sprintf("Noise handshake failed on a fault-free relay: client %v, server %v", cerr, serr)
 		return
 	}
@@ -470,9 +531,14 @@ func runC05RT(c *c05rtCase) (out c05Outcome) {
 				r.SetDown(true)
 			case "up":
 				r.SetDown(false)
+			case "blackhole":
+				r.SetBlackhole(true)
+			case "deliver":
+				r.SetBlackhole(false)
 			}
 		}
 		r.SetDown(false)
+		r.SetBlackhole(false)
 	}()
 	sides := [2]*e2eSide{{conn: cc}, {conn: sc}}
 	for i, l := range c.C2S {
@@ -595,6 +661,12 @@ func runC05RT(c *c05rtCase) (out c05Outcome) {
 	if nerr > 0 {
 		out.labels = append(out.labels, "stream_broken")
 	}
+	for _, e := range c.Events {
+		if e.Kind == "blackhole" {
+			out.labels = append(out.labels, "long_silence")
+			break
+		}
+	}
 	out.nontrivial = nerr > 0 && len(plains) > 0
 	if out.violation == "" {
 		for id, list := range msgs {
@@ -652,6 +724,24 @@ func TestC05RealTime(t *testing.T) {
 				}
 			})
 			c.Events = rapid.SliceOfN(eg, 1, 4).Draw(rt, "events")
+			c.Redial = rapid.Bool().Draw(rt, "redial")
+			// a long silence: the relay swallows everything for longer than
+			// the keepalive periods (5s/7s ping + 3s pong), then works again
+			if rapid.IntRange(0, 2).Draw(rt, "blackhole") == 0 {
+				at := rapid.SampledFrom([]int{0, 300, 2500}).Draw(rt, "bh_at")
+				// ... in the middle of a transfer that is still going on in
+				// both directions
+				c.GapMs = 600
+				for len(c.C2S) < 5 {
+					c.C2S = append(c.C2S, 100)
+				}
+				for len(c.S2C) < 5 {
+					c.S2C = append(c.S2C, 100)
+				}
+				c.Events = append(c.Events,
+					relayEvent{AtMs: at, Kind: "blackhole"},
+					relayEvent{AtMs: at + rapid.SampledFrom([]int{9000, 12000, 20000}).Draw(rt, "bh_len"), Kind: "deliver"})
+			}
 			// events in time order
 			for a := 0; a < len(c.Events); a++ {
 				for b := a + 1; b < len(c.Events); b++ {
